@@ -26,11 +26,10 @@ grammar and `parse_database` (metamath/parser.py), the AST dataclasses and `clas
 
 OUTSIDE (assumed, stated in `vlib/transmmast.py`): lark's lexer (= `lexTokens` + keyword classification on such texts), its LALR(1)
 parser (= the rule functions), the order in which `Transformer` calls the callbacks.  The theorems HERE are about the strings the
-`Encoder` writes; what `Printer.write/flush` make of them is `Pi2/MM/AstText.lean`: the tokens are the same when no written
-string ends in a character Python's `str.isspace` accepts, and NOT in general — a statement label that consists only of
-characters `str.isspace` accepts but the grammar does not ignore (`'\x0b'`, `'\x1c'`–`'\x1f'`, `'\x85'`, `'\xa0'`, U+2000…, U+3000)
-is taken for indentation by `Printer.is_line_buffer_empty` and DROPPED: `parse_database('\xa0 $a x $.')` prints as `$a x $.` and
-does not re-parse (`AstText.printer_drops_blank_label`; confirmed on the real code).
+`Encoder` writes; what `Printer.write/flush` make of them is `Pi2/MM/AstText.lean`: for every database of lexemes the text is
+lexed to the same tokens (`Printer` as repaired by 5aefd01; before, a statement label that consists only of characters `str.isspace`
+accepts but the grammar does not ignore — `'\x0b'`, `'\x1c'`–`'\x1f'`, `'\x85'`, `'\xa0'`, U+2000…, U+3000 — was taken for
+indentation by `Printer.is_line_buffer_empty` and dropped: `AstText.old_printer_dropped_blank_label`).
 -/
 namespace AstTie
 open MM MMAstSup Gen.MMAst
